@@ -8,11 +8,12 @@ import ast, itertools
 class Cfg:
     BONUS = 0
 
-    def __init__(self, may_raise, hierarchy, unroll=1, maxpaths=20000):
+    def __init__(self, may_raise, hierarchy, unroll=1, maxpaths=20000, bonus=True):
         self.may_raise = may_raise      # fn(node) -> list of exception class names that node may raise ('*' = any BaseException)
         self.h = hierarchy              # fn(cls, handler_cls) -> bool  (is subclass)
-        self.unroll = unroll + Cfg.BONUS   # the thorough tier explores every loop one iteration deeper
-        self.maxpaths = maxpaths * (8 if Cfg.BONUS else 1)
+        extra = Cfg.BONUS if bonus else 0
+        self.unroll = unroll + extra   # the thorough tier explores every loop deeper (rules that only need "some iteration" opt out)
+        self.maxpaths = maxpaths * (8 if extra else 1)
 
     # ---- helpers
     def seq(self, stmts):
